@@ -130,7 +130,7 @@ theorem BoundUpload.spec {s : State} {u : UploadRef} {b k : Bytes} (h : BoundUpl
       simp [upOf, h.1, h.2]
 
 /-- the upload `u` names does not exist under this bucket and key: the id is not a UUID, no upload has it, or the upload was
-    created for another bucket or key (6bf591c: `NoSuchUpload` on both sides; before: fs:upload-not-bound-to-key) -/
+    created for another bucket or key (41e1cf2: `NoSuchUpload` on both sides; before: fs:upload-not-bound-to-key) -/
 def AbsentUpload (s : State) (u : UploadRef) (b k : Bytes) : Prop :=
   match u with
   | none => True
